@@ -380,6 +380,75 @@ fn load(text: &str, spec: &Option<String>, strict: bool) -> std::thread::Result<
     }))
 }
 
+fn typespec_sx(t: &a2lfile::verif_hooks::TypeSpecDump) -> Sx {
+    use a2lfile::verif_hooks::TypeSpecDump as T;
+    match t {
+        T::Leaf(name) => Sx::s(name),
+        T::Array(item, dim) => Sx::L(vec![Sx::s("A"), typespec_sx(item), Sx::n(*dim)]),
+        T::Enum(items) => {
+            let mut v = vec![Sx::s("E")];
+            for (name, val) in items {
+                let mut e = vec![Sx::s(name)];
+                if let Some(x) = val {
+                    e.push(Sx::I(*x as i128));
+                }
+                v.push(Sx::L(e));
+            }
+            Sx::L(v)
+        }
+        T::Struct(items) => {
+            let mut v = vec![Sx::s("S")];
+            v.extend(items.iter().map(typespec_sx));
+            Sx::L(v)
+        }
+        T::Sequence(item) => Sx::L(vec![Sx::s("Q"), typespec_sx(item)]),
+        T::Tagged(is_union, items) => {
+            let mut v = vec![Sx::s(if *is_union { "U" } else { "T" })];
+            for (tag, is_block, repeat, item) in items {
+                v.push(Sx::L(vec![Sx::s(tag), Sx::b(*is_block), Sx::b(*repeat), typespec_sx(item)]));
+            }
+            Sx::L(v)
+        }
+    }
+}
+
+fn parsed_a2ml(text: &str) -> Sx {
+    match catch_unwind(AssertUnwindSafe(|| a2lfile::verif_hooks::parse_a2ml("", text))) {
+        Ok(Ok((spec, _merged))) => Sx::L(vec![Sx::s("OK"), typespec_sx(&spec)]),
+        Ok(Err(msg)) => Sx::L(vec![Sx::s("ERR"), Sx::s(&msg)]),
+        Err(_) => Sx::L(vec![Sx::s("ERR"), Sx::s("<panic in parse_a2ml>")]),
+    }
+}
+
+/// ( ( ( s<text of an A2ML block, \r\n -> \n> <parsed> )* ) ( <parsed builtin spec>? ) ): what a2ml::parse_a2ml makes of the
+/// A2ML texts of the file and of the a2ml_spec argument - the oracle the parser model takes as input
+fn a2mltable(text: &str, spec: &Option<String>) -> Sx {
+    let mut entries: Vec<Sx> = vec![];
+    let mut seen: Vec<String> = vec![];
+    if let Ok(Ok((tokens, files))) = catch_unwind(AssertUnwindSafe(|| a2lfile::verif_hooks::tokenize("", text))) {
+        for w in tokens.windows(3) {
+            // /begin A2ML <string token>
+            let (k0, ..) = w[0];
+            let (k1, s1, e1, f1, _) = w[1];
+            let (k2, s2, e2, f2, _) = w[2];
+            if k0 == 1 && k1 == 0 && k2 == 4 && files.get(f1).and_then(|d| d.get(s1..e1)) == Some("A2ML") {
+                if let Some(t) = files.get(f2).and_then(|d| d.get(s2..e2)) {
+                    let t = t.replace("\r\n", "\n");
+                    if !seen.contains(&t) {
+                        entries.push(Sx::L(vec![Sx::s(&t), parsed_a2ml(&t)]));
+                        seen.push(t);
+                    }
+                }
+            }
+        }
+    }
+    let builtin = match spec {
+        Some(s) => vec![parsed_a2ml(s)],
+        None => vec![],
+    };
+    Sx::L(vec![Sx::L(entries), Sx::L(builtin)])
+}
+
 pub fn run_load(case: &Sx) -> Sx {
     let c = case.as_list();
     let text = c[0].as_str();
@@ -388,15 +457,15 @@ pub fn run_load(case: &Sx) -> Sx {
     let cycles = c[3].as_usize();
 
     let (file, log) = match load(&text, &spec, strict) {
-        Err(_) => return Sx::L(vec![Sx::s("PANIC"), floattable(&text)]),
-        Ok(Err(e)) => return Sx::L(vec![Sx::s("ERR"), diag_a2l(&e), floattable(&text)]),
+        Err(_) => return Sx::L(vec![Sx::s("PANIC"), floattable(&text), a2mltable(&text, &spec)]),
+        Ok(Err(e)) => return Sx::L(vec![Sx::s("ERR"), diag_a2l(&e), floattable(&text), a2mltable(&text, &spec)]),
         Ok(Ok(v)) => v,
     };
     let Ok(dump) = catch_unwind(AssertUnwindSafe(|| dump_a2lfile(&file))) else {
-        return Sx::L(vec![Sx::s("PANIC"), Sx::s("dump"), floattable(&text)]);
+        return Sx::L(vec![Sx::s("PANIC"), Sx::s("dump"), floattable(&text), a2mltable(&text, &spec)]);
     };
     let Ok(text1) = catch_unwind(AssertUnwindSafe(|| file.write_to_string())) else {
-        return Sx::L(vec![Sx::s("PANIC"), Sx::s("write"), floattable(&text)]);
+        return Sx::L(vec![Sx::s("PANIC"), Sx::s("write"), floattable(&text), a2mltable(&text, &spec)]);
     };
 
     let mut cyc = vec![];
@@ -433,6 +502,7 @@ pub fn run_load(case: &Sx) -> Sx {
         Sx::s(&text1),
         Sx::L(cyc),
         floattable(&text),
+        a2mltable(&text, &spec),
     ])
 }
 
